@@ -6,6 +6,7 @@ import AriadneModel.Driver.Wire
 import AriadneModel.Driver.GqlWire
 import AriadneModel.Model.Package
 import AriadneModel.Model.PackageTriggers
+import AriadneModel.Model.PackageValid
 import AriadneModel.Spec.PyScope
 
 open Lean (Json)
@@ -126,9 +127,10 @@ def handle (j : Json) : Except String Json := do
     | .ok p =>
       pure (Json.mkObj [("ok", Json.mkObj [("modules", Json.arr (p.modules.map encModule).toArray), ("writeLog", strs p.writeLog),
         ("reported", strs p.reported), ("onDisk", strs p.onDisk), ("wellScoped", Json.arr ((Spec.PyScope.violations p).map Json.str).toArray),
-        ("documented", true)])])
-    | .error e => pure (Json.mkObj (encErr e ++ [("written", strs r.written), ("mkdir", r.mkdir), ("documented", documentedRefusal e)]))
+        ("proved", Spec.PyScope.provedB cfg inp), ("documented", true)])])
+    | .error e => pure (Json.mkObj (encErr e ++ [("written", strs r.written), ("mkdir", r.mkdir), ("documented", documentedRefusal e), ("proved", Spec.PyScope.provedB cfg inp)]))
   | "triggers" => pure (strs (PackageTriggers.triggers cfg inp))
+  | "valid" => pure (strs (PackageValid.invalidParts cfg inp))
   | _ => throw s!"unknown op {op}"
 
 end C04Driver
